@@ -15,6 +15,7 @@
 import CB.Props.C05
 import CB.Lemmas.GenShiftsLadder
 import CB.Lemmas.GenShiftsQuery
+import CB.Lemmas.GenCmpMoreQuery
 namespace CB.P05G
 open CB CB.Shift CB.Bits
 
@@ -309,5 +310,114 @@ example : Gen.Shifts.Bits.leading_zeros [0#64, 6#64, 0#64] = 125#32 := by decide
 example : (Gen.Shifts.Bits.trailing_ones [~~~0#64, 1#64, 0#64]).toNat = 65 := by
   rw [← GenShifts.trailingOnes_bridge _ (by decide)]; decide
 example : Gen.Shifts.Bits.bit [0#64, 6#64, 0#64] 66#32 = ~~~0#64 := by decide
+
+/-! ## T05.G6 — the SOURCE of the limb-wise operators `Uint::{bitor, bitxor, not}` (and `wrapping_or`, `wrapping_xor`), of
+`Uint::set_bit`, of the variable-time queries `bit_vartime`, `bits_vartime`, `trailing_zeros_vartime`, `trailing_ones_vartime`
+and of the `impl Uint` forwarders of src/uint/bits.rs (tools/translate.py → CB/Gen/CmpMore.lean)
+
+Loop forms new in this layer: the search loop `while i > 0 && limbs[i].0 == 0 { i -= 1; }` (structural recursion on the counter,
+returning the final counter) and `while i < len { ..; if z != Limb::BITS { break; } i += 1; }` (every round re-tests the exit);
+`bit_vartime` ends in an `if / else` expression.  The forwarders call the slice functions with `&self.limbs`, the limb list. -/
+
+/-- the hand-written model of the limb-wise operators and of `set_bit` (what `bitor_spec`, `bitxor_spec`, `not_spec`,
+    `set_bit_spec` of CB/Props/C05.lean are proved about) IS the translated source, every limb count -/
+theorem bitops_model_is_translated_source (a b : List (BitVec 64)) (h : a.length = b.length) (idx : BitVec 32) (bv : BitVec 64)
+    (hL : a.length ≤ 2 ^ 32) :
+    ubitor (GenChains.nats a) (GenChains.nats b) = GenChains.nats (Gen.CmpMore.Uint.bitor a.length a b) ∧
+    ubitxor (GenChains.nats a) (GenChains.nats b) = GenChains.nats (Gen.CmpMore.Uint.bitxor a.length a b) ∧
+    unot (GenChains.nats a) = GenChains.nats (Gen.CmpMore.Uint.not a.length a) ∧
+    Gen.CmpMore.Uint.wrapping_or a.length a b = Gen.CmpMore.Uint.bitor a.length a b ∧
+    Gen.CmpMore.Uint.wrapping_xor a.length a b = Gen.CmpMore.Uint.bitxor a.length a b ∧
+    setBit (GenChains.nats a) idx.toNat bv.toNat = GenChains.nats (Gen.CmpMore.Uint.set_bit a.length a idx bv) :=
+  ⟨GenCmpMore.ubitor_bridge a b h, GenCmpMore.ubitxor_bridge a b h, GenCmpMore.unot_bridge a,
+   GenBits.wrapping_or_eq _ a b, GenBits.wrapping_xor_eq _ a b, GenCmpMore.setBit_bridge a hL idx bv⟩
+
+/-- the TRANSLATED `Uint::bitor` / `bitxor` / `not`: limb-wise ⇒ the `Nat` operations on the values (`not`: the complement
+    modulo `B^n`) -/
+theorem src_uint_bitops_exact (a b : List (BitVec 64)) (h : a.length = b.length) :
+    val (GenChains.nats (Gen.CmpMore.Uint.bitor a.length a b)) = val (GenChains.nats a) ||| val (GenChains.nats b) ∧
+    val (GenChains.nats (Gen.CmpMore.Uint.bitxor a.length a b)) = val (GenChains.nats a) ^^^ val (GenChains.nats b) ∧
+    val (GenChains.nats (Gen.CmpMore.Uint.not a.length a)) = B ^ a.length - 1 - val (GenChains.nats a) := by
+  have hl : (GenChains.nats a).length = (GenChains.nats b).length := by
+    rw [GenChains.nats_length, GenChains.nats_length, h]
+  refine ⟨?_, ?_, ?_⟩
+  · rw [← GenCmpMore.ubitor_bridge a b h]; exact P05.bitor_spec (GenChains.nats_WF a) (GenChains.nats_WF b) hl
+  · rw [← GenCmpMore.ubitxor_bridge a b h]; exact P05.bitxor_spec (GenChains.nats_WF a) (GenChains.nats_WF b) hl
+  · rw [← GenCmpMore.unot_bridge a, P05.not_spec (GenChains.nats_WF a), GenChains.nats_length]
+
+/-- the TRANSLATED `Uint::set_bit(index, ConstChoice(v))`: bit `index` becomes `v` when `index < BITS`, no other bit changes;
+    the value is unchanged for `index ≥ BITS` -/
+theorem src_set_bit_exact (a : List (BitVec 64)) (hL : a.length ≤ 2 ^ 32) (idx : BitVec 32) (v : Bool) (j : Nat) :
+    (val (GenChains.nats (Gen.CmpMore.Uint.set_bit a.length a idx (GenBits.ofBool v)))).testBit j =
+      if j = idx.toNat ∧ idx.toNat < 64 * a.length then v else (val (GenChains.nats a)).testBit j := by
+  rw [← GenCmpMore.setBit_bridge a hL idx, GenBits.ofBool_toNat]
+  have := P05.set_bit_spec (GenChains.nats_WF a) (by rw [GenChains.nats_length]; simpa [TWO32] using hL)
+    (i := idx.toNat) (by simpa [TWO32] using idx.isLt) v j
+  rwa [GenChains.nats_length] at this
+
+/-- the hand-written model of the variable-time queries and of the `Uint` forms (what T05.5 is proved about) IS the translated
+    source: every non-empty slice with `64 · len < 2^32`, every index (`bits_vartime` panics on an empty slice: `none`) -/
+theorem vartime_query_model_is_translated_source (a : List (BitVec 64)) (hne : a ≠ []) (idx : BitVec 32)
+    (hL : 64 * a.length < 2 ^ 32) :
+    bitVartime (GenChains.nats a) idx.toNat = Gen.CmpMore.Bits.bit_vartime a idx ∧
+    bitsVartime (GenChains.nats a) = some (Gen.CmpMore.Bits.bits_vartime a).toNat ∧
+    trailingZerosVartime (GenChains.nats a) = (Gen.CmpMore.Bits.trailing_zeros_vartime a).toNat ∧
+    trailingOnesVartime (GenChains.nats a) = (Gen.CmpMore.Bits.trailing_ones_vartime a).toNat ∧
+    (bitsVartime (GenChains.nats a) = some (Gen.CmpMore.Uint.bits_vartime a.length a).toNat ∧
+     leadingZerosVartime (GenChains.nats a) = some (Gen.CmpMore.Uint.leading_zeros_vartime a.length a).toNat ∧
+     ubits (GenChains.nats a) = (Gen.CmpMore.Uint.bits a.length a).toNat ∧
+     leadingZeros (GenChains.nats a) = (Gen.CmpMore.Uint.leading_zeros a.length a).toNat) ∧
+    (Gen.CmpMore.Uint.bit a.length a idx = Gen.Shifts.Bits.bit a idx ∧
+     Gen.CmpMore.Uint.bit_vartime a.length a idx = Gen.CmpMore.Bits.bit_vartime a idx ∧
+     Gen.CmpMore.Uint.trailing_zeros a.length a = Gen.Shifts.Bits.trailing_zeros a ∧
+     Gen.CmpMore.Uint.trailing_zeros_vartime a.length a = Gen.CmpMore.Bits.trailing_zeros_vartime a ∧
+     Gen.CmpMore.Uint.trailing_ones a.length a = Gen.Shifts.Bits.trailing_ones a ∧
+     Gen.CmpMore.Uint.trailing_ones_vartime a.length a = Gen.CmpMore.Bits.trailing_ones_vartime a) :=
+  ⟨GenCmpMore.bitVartime_bridge a idx, GenCmpMore.bitsVartime_bridge a hne hL, GenCmpMore.trailingZerosVartime_bridge a hL,
+   GenCmpMore.trailingOnesVartime_bridge a hL, GenCmpMore.uint_bits_forms_bridge a hne hL,
+   GenBits.uint_bit_eq _ a idx, GenBits.uint_bit_vartime_eq _ a idx, GenBits.uint_trailing_zeros_eq _ a,
+   GenBits.uint_trailing_zeros_vartime_eq _ a, GenBits.uint_trailing_ones_eq _ a, GenBits.uint_trailing_ones_vartime_eq _ a⟩
+
+/-- the TRANSLATED `bits_vartime` (search loop) is the bit length of the value, `Uint::bits` (constant time) the same number,
+    `leading_zeros_vartime` its complement to `BITS`; `bit_vartime i` is `testBit i` (false beyond the width) -/
+theorem src_bits_vartime_exact (a : List (BitVec 64)) (hne : a ≠ []) (idx : BitVec 32) (hL : 64 * a.length < 2 ^ 32) :
+    (Gen.CmpMore.Bits.bits_vartime a).toNat = bitlen (val (GenChains.nats a)) ∧
+    (Gen.CmpMore.Uint.bits a.length a).toNat = bitlen (val (GenChains.nats a)) ∧
+    (Gen.CmpMore.Uint.leading_zeros_vartime a.length a).toNat = 64 * a.length - bitlen (val (GenChains.nats a)) ∧
+    Gen.CmpMore.Bits.bit_vartime a idx = (val (GenChains.nats a)).testBit idx.toNat := by
+  have hne' : GenChains.nats a ≠ [] := by
+    cases a with
+    | nil => exact absurd rfl hne
+    | cons _ _ => simp [GenChains.nats]
+  have ⟨ub, bv, lz, lzv⟩ := P05.bits_spec (GenChains.nats_WF a) hne'
+  have ⟨_, hlzv, hub, hlz⟩ := GenCmpMore.uint_bits_forms_bridge a hne hL
+  have hb := GenCmpMore.bitsVartime_bridge a hne hL
+  have ⟨_, bt⟩ := P05.bit_spec (GenChains.nats_WF a) (by rw [GenChains.nats_length]; simp only [TWO32]; omega)
+    (i := idx.toNat) (by simpa [TWO32] using idx.isLt)
+  refine ⟨?_, by rw [← hub, ub], ?_, by rw [← GenCmpMore.bitVartime_bridge a idx, bt]⟩
+  · rw [bv, ub] at hb; exact (Option.some.inj hb).symm
+  · rw [lzv, lz, GenChains.nats_length] at hlzv; exact (Option.some.inj hlzv).symm
+
+/-- the TRANSLATED variable-time counts (loops with `break`) return what the constant-time loops return -/
+theorem src_trailing_vartime_eq_ct (a : List (BitVec 64)) (hL : 64 * a.length < 2 ^ 32) :
+    Gen.CmpMore.Bits.trailing_zeros_vartime a = Gen.Shifts.Bits.trailing_zeros a ∧
+    Gen.CmpMore.Bits.trailing_ones_vartime a = Gen.Shifts.Bits.trailing_ones a := by
+  constructor <;> apply BitVec.eq_of_toNat_eq
+  · rw [← GenCmpMore.trailingZerosVartime_bridge a hL, ← GenShifts.trailingZeros_bridge a hL]
+    exact (P05.trailing_zeros_spec (GenChains.nats_WF a)).1.symm
+  · rw [← GenCmpMore.trailingOnesVartime_bridge a hL, ← GenShifts.trailingOnes_bridge a hL]
+    exact (P05.trailing_ones_spec (GenChains.nats_WF a)).1.symm
+
+/-- evaluation: the translated functions run (3-limb values; `break` in the second limb, the search loop skipping a zero top limb) -/
+example : (Gen.CmpMore.Bits.trailing_zeros_vartime [0#64, 6#64, 0#64]).toNat = 65 := by
+  rw [← GenCmpMore.trailingZerosVartime_bridge _ (by decide)]; decide
+example : (Gen.CmpMore.Bits.trailing_ones_vartime [~~~0#64, 1#64, 0#64]).toNat = 65 := by
+  rw [← GenCmpMore.trailingOnesVartime_bridge _ (by decide)]; decide
+example : Gen.CmpMore.Bits.bits_vartime [0#64, 6#64, 0#64] = 67#32 := by decide
+example : Gen.CmpMore.Bits.bit_vartime [0#64, 6#64, 0#64] 66#32 = true := by decide
+example : Gen.CmpMore.Bits.bit_vartime [0#64, 6#64, 0#64] 200#32 = false := by decide
+example : Gen.CmpMore.Uint.set_bit 3 [0#64, 6#64, 0#64] 64#32 (~~~0#64) = [0#64, 7#64, 0#64] := by decide
+example : Gen.CmpMore.Uint.bitxor 2 [5#64, 1#64] [3#64, 1#64] = [6#64, 0#64] := by decide
+example : Gen.CmpMore.Uint.not 1 [0#64] = [~~~0#64] := by decide
 
 end CB.P05G
